@@ -5,6 +5,7 @@ mod fam_constr;
 mod fam_feat;
 mod fam_geom;
 mod fam_nms;
+mod fam_store;
 mod fam_vote;
 mod wire;
 
@@ -15,6 +16,7 @@ use std::panic::{catch_unwind, AssertUnwindSafe};
 pub struct Ctx {
     // per-case mutable state lives here (stores, trackers, ...)
     pub constr: similari::trackers::spatio_temporal_constraints::SpatioTemporalConstraints,
+    pub store: fam_store::StoreCtx,
 }
 
 fn exec(ctx: &mut Ctx, line: &str) -> String {
@@ -30,6 +32,8 @@ fn exec(ctx: &mut Ctx, line: &str) -> String {
         "vote" => fam_vote::exec(ctx, &mut t),
         "feat" => fam_feat::exec(ctx, &mut t),
         "box" => fam_geom::exec_box(ctx, &mut t),
+        "track" => fam_store::exec_track(ctx, &mut t),
+        "store" => fam_store::exec_store(ctx, &mut t),
         "geom" => fam_geom::exec_geom(ctx, &mut t),
         _ => format!("UNKNOWN-FAMILY {fam}"),
     }
